@@ -456,7 +456,8 @@ func configs(th bool) []explore.Config {
 func main() {
 	fwsim.ReplayIfRequested("C09", "C09.panic", build)
 	explore.Main(explore.Spec{
-		ID: "C09", PanicClause: "C09.panic", Build: build,
+		Extra: scopePass,
+		ID:    "C09", PanicClause: "C09.panic", Build: build,
 		Configs: configs,
 		Budget: func(th bool) time.Duration {
 			if th {
